@@ -573,7 +573,7 @@ class Run:
             if target != sm.labels():
                 ph, rows = M.convert_rows(sm.labels(), sm.rows(), target, pk.n)
                 sm.ix = M.Ix(sm.ix.pkg, 'M', ph, M.DataCell(rows))
-                sm.subs.detach_all()      # C12-F1: _streams keeps sub-streams of the previous indexer
+                sm.subs.relink(sm)        # MultiStream.phases setter: reset_cache(); _relink_phase_streams()
                 self.pc[name] = PC()
         self.mark(sm, f'phases:{src}->{dst}')
 
@@ -619,9 +619,7 @@ class Run:
         if full:
             sm.ix.cache = om.ix.cache
         else:
-            sm.ix.cache.clear()
-            if diverges:
-                sm.ix.cache.diverged = True      # cleared in place: the dict stays shared with the earlier link partner
+            sm.ix.cache = M.CacheCell()          # a partial link replaces the dict (it may be shared with an earlier partner)
         if TP:
             sm.tc = om.tc
         if flow:
@@ -755,8 +753,7 @@ class Run:
             r = ctx.call('op.proxy', real.proxy, region=f'born={sm.born}')
             m = M.SM(new, sm.ix, sm.tc, sm.born)
             m.subs = sm.subs                     # proxy() copies the _streams dict object
-            self.pc[new] = self.pc[name]
-            self.pc[name].shared = True
+            self.pc[new] = PC()                  # a proxy keeps its own property cache
         else:
             r = ctx.call('op.flow_proxy', real.flow_proxy, region=f'kind={sm.kind}')
             ix = M.Ix(sm.ix.pkg, sm.kind, sm.ix.phases, sm.ix.data, M.PhCell(sm.ix.ph.label) if sm.kind == 'S' else None)
@@ -913,5 +910,5 @@ def prop_history(ch, ctx):
 
 
 PROPS = {
-    'history': (prop_history, 6000, 100000),
+    'history': (prop_history, 8000, 100000),
 }
